@@ -36,9 +36,7 @@ def verifyLoop (ext : Ext) (digest att : Bytes) (attesters : List Bytes)
     must (lo ≤ hi ∧ hi ≤ att.length)
     let sig := normV (slice att lo hi)
     let key ← getOr (ext.ecrecover digest sig)
-    match prev with
-    | some p => req (blt p (addrOf ext key))
-    | none => pure ()
+    reqAll prev (fun p => blt p (addrOf ext key) = true)
     req (isAttester attesters key)
     verifyLoop ext digest att attesters t fuel (i+1) (some (addrOf ext key))
 
